@@ -55,7 +55,7 @@ func (a AnimSpec) String() string {
 }
 
 var animDurations = []int{0, 1, 40, 40, 100, 1 << 24 - 2, 1<<24 - 1}
-var animMuts = []string{"same", "pixel", "rect", "rect", "big", "alphaonly", "semi", "small"}
+var animMuts = []string{"same", "pixel", "rect", "rect", "big", "most", "alphaonly", "semi", "small"}
 
 func GenAnimSpec(r *RNG, maxSide, maxFrames int, lossless bool, alphaPct int) AnimSpec {
 	a := AnimSpec{Seed: r.Next(), Lossless: lossless, ICCLen: -1, EXIFLen: -1, XMPLen: -1}
@@ -95,6 +95,12 @@ func GenAnimSpec(r *RNG, maxSide, maxFrames int, lossless bool, alphaPct int) An
 		}
 		if r.Pct(30) {
 			f.Type = r.PickS("sub", "rgba", "rgbasub", "nrgba64")
+		}
+		if i > 0 && r.Pct(35) {
+			switch a.Frames[i-1].Mut {
+			case "most", "big", "small", "rect":
+				f.Mut = "same" // a duplicate right after a structural decision of the encoder
+			}
 		}
 		a.Frames = append(a.Frames, f)
 	}
@@ -159,6 +165,15 @@ func (a AnimSpec) Canvases() (inputs []image.Image, canvases []*image.NRGBA) {
 				}
 			}
 		case "same":
+		case "most":
+			// new smooth content almost everywhere, a few scattered pixels stay as they
+			// were (the >90 %-changed path, where a key frame competes with a sub-frame)
+			src := Generate(ImgSpec{Family: r.PickS("smooth", "hgrad", "dgrad"), W: w, H: h, Seed: r.Next(), Alpha: "opaque", Type: "nrgba"}).(*image.NRGBA)
+			for i := 0; i < w*h; i++ {
+				if r.Intn(100) < 94 {
+					copy(cur.Pix[4*i:4*i+4], src.Pix[4*i:4*i+4])
+				}
+			}
 		case "pixel":
 			x, y := r.Intn(w), r.Intn(h)
 			cur.SetNRGBA(x, y, randPixel(r, a.Alpha))
